@@ -98,7 +98,7 @@ PROPS['C14'] = dict(
 PROPS['C02'] = dict(
     sess=[('sess_c02', 300, 4000), ('sweep_c02', 300, 4000)],
     events='w', state=['ret', 'conn', 'gen', 'h'],
-    monitors=[M.mon_c02, M.mon_c17],
+    monitors=[M.mon_c02, M.mon_c17, M.mon_c05_replay],
     title='an accepted QoS 1 publish is never lost: replayed on each resume until PUBACK',
     claim='Proved in Coq over every step of every operation under every schedule: the bytes of a retained packet, modulo '
           'the DUP bit, stay in the retained list until an acknowledgement naming its identifier is processed or a fresh '
@@ -119,7 +119,7 @@ PROPS['C02'] = dict(
 PROPS['C03'] = dict(
     sess=[('sess_c03', 300, 4000)],
     events='w', state=['ret', 'rel', 'conn', 'gen', 'h', 'quota'],
-    monitors=[M.mon_c03, M.mon_c02],
+    monitors=[M.mon_c03, M.mon_c02, M.mon_c05_replay],
     title='QoS 2 outbound exchange is exactly-once',
     claim='Proved in Coq: a successful PUBREC moves the exchange from the retained list to the release list in one step '
           '(the PUBLISH can never be written again, the PUBREL is owed); the release list always has room (with the quota '
@@ -134,7 +134,7 @@ PROPS['C03'] = dict(
 PROPS['C05'] = dict(
     sess=[('sess_c05', 400, 5000)],
     events='w', state=['sp', 'gen', 'ret', 'rel', 'srv', 'h', 'cid', 'conn', 'ev', 'pid'],
-    monitors=[M.mon_c05],
+    monitors=[M.mon_c05, M.mon_c05_replay, M.mon_c02],
     title='fresh vs. resumed broker session is mirrored in local state and replay',
     claim='Proved in Coq: clean_start = not session_present with the configured or assigned client id; a successful CONNACK '
           'sets session_present and no step of any operation (in particular no rejected, garbled or invalid CONNACK) clears it '
@@ -223,8 +223,11 @@ PROPS['C20'] = dict(
           'property list (through the lazy iterator round trip); reply() yields a publication to exactly that topic carrying exactly '
           'that correlation data followed by the user properties (also read back from its encoding); no reply is offered without a '
           'response topic; the owned copy equals the two values when they fit the requested capacities and is an error otherwise, '
-          'never a truncated copy. Tied to the code by differential runs through a hook that builds the InboundPublish and renders '
-          'reply()/reply_owned() for 8 capacity pairs, lengths around each capacity, and an independent Python reading of the inbound packet.',
+          'never a truncated copy; the publication built later from the owned copy (with user properties) is the one reply() builds '
+          '(C20_owned_publication). Tied to the code by differential runs through a hook that builds the InboundPublish and renders '
+          'reply(), reply_owned() for 8 capacity pairs and the encoded publication of the owned target, lengths around each capacity, '
+          'property blocks longer than 64 KiB ahead of the response topic, and an independent Python reading of the inbound packet. '
+          'An implementation that no longer returns is reported as HANG by the runner (60 s without output) with the case as replay.',
     note='Trusted: Coq kernel, model, extraction, harness, reply hook. No axioms.')
 
 PROPS['C10'] = dict(
